@@ -533,7 +533,9 @@ pub fn shrink_violations(ctx: &Ctx, property: &str, out: &mut Outcome) {
 }
 
 pub fn profile_values() -> Profile {
-    Profile::base("values")
+    let mut p = Profile::base("values");
+    p.flatten_tower = 12;
+    p
 }
 
 pub fn c01(ctx: &Ctx) -> ! {
